@@ -1,21 +1,25 @@
 #!/bin/bash
 # Converse self-test: behaviour-preserving edits must not raise an alarm in any check.
+# usage: tools/benign.sh [patches..]   (default: benign/*.patch benign/wave/*.patch benign/wave2/*.patch; 4 patches in parallel, JOBS=n to change)
 DIR="$(cd "$(dirname "$0")/.." && pwd)"
-rc=0
-LIST="$@"; [ -z "$LIST" ] && LIST="$DIR/benign/*.patch $DIR/benign/wave/*.patch"
-for p in $LIST; do
-  p=$(realpath "$p")
+LIST="$@"; [ -z "$LIST" ] && LIST="$DIR/benign/*.patch $DIR/benign/wave/*.patch $DIR/benign/wave2/*.patch"
+one() {
+  DIR="$1"; p=$(realpath "$2")
   SCR=$(mktemp -d /tmp/ben.XXXXXX)
   rsync -a --exclude target --exclude .git /repo/ "$SCR/"
-  if ! (cd "$SCR" && patch -p1 -s < "$p"); then echo "SKIP $(basename $p) (does not apply)"; rm -rf "$SCR"; continue; fi
-  bad=""
+  if ! (cd "$SCR" && patch -p1 -s < "$p"); then echo "SKIP $(basename $p) (does not apply)"; rm -rf "$SCR"; return; fi
+  bad=""; det=""
   for i in $(seq -w 1 20); do
     out=$("$DIR/check" C$i --repo "$SCR" --no-evidence --no-fixture 2>&1)
-    if [ $? -ne 0 ]; then bad="$bad C$i"; echo "$out" | grep -E "rule=|BROKEN|extraction" | head -3 | cut -c1-220; fi
+    if [ $? -ne 0 ]; then bad="$bad C$i"; det="$det$(echo "$out" | grep -E "rule=|BROKEN|extraction" | head -2 | cut -c1-220)"$'\n'; fi
   done
   if [ -n "$bad" ]; then
-    if grep -q "\"$(basename $p)\"" "$DIR/benign/wave/UNSUPPORTED.json" 2>/dev/null; then echo "UNSUPPORTED (listed) $(basename $p):$bad"; else echo "FALSE-ALARM $(basename $p):$bad"; rc=1; fi
+    if grep -q "\"$(basename $p)\"" "$DIR/benign/UNSUPPORTED.json" 2>/dev/null; then echo "UNSUPPORTED (listed) $(basename $p):$bad"; else echo "FALSE-ALARM $(basename $p):$bad"; echo -n "$det"; fi
   else echo "quiet $(basename $p)"; fi
   rm -rf "$SCR"
-done
-exit $rc
+}
+export -f one
+OUT=$(ls $LIST | xargs -P ${JOBS:-4} -I{} bash -c 'one "$0" "$1"' "$DIR" {})
+echo "$OUT"
+echo "$OUT" | grep -q "^FALSE-ALARM" && exit 1
+exit 0
